@@ -263,6 +263,12 @@ impl Env {
         })?;
         config.process().map_err(|e| format!("config: {e}"))?;
         for (key, value) in &opts.timing_override {
+            if key == "suspend_child_after_inactive_seconds" {
+                // (children that have not been heard of for that long are
+                // suspended by the SuspendChildrenIfNeeded task)
+                config.suspend_child_after_inactive_seconds = Some(*value);
+                continue
+            }
             let t = &mut config.issuance_timing;
             match key.as_str() {
                 "timing_publish_next_hours" => {
